@@ -16,6 +16,7 @@ KNOWN_CLASSES = {
     "exec-panic:after-dup-qubits": "C18-dup-qubits-silently-simulated",     # a later operation trips over the garbage state
     "reps-diverge:after-dup-qubits": "C18-dup-qubits-silently-simulated",
     "latex-panic:dup-qubits": "C19-abort-export-latex-dup-qubits",
+    "exec-panic:non-finite-parameter": "C18-nonfinite-parameter-measure-all-panic",
     "exec-panic:cbit-ge-64": "C19-abort-exec-cbit-ge-64",
     "reps-diverge:cbit-ge-64": "C19-abort-exec-cbit-ge-64",
     "exec-panic:controls-gt-64": "C18-controls-gt-64-panic",
@@ -94,7 +95,7 @@ SPEC = {
             "failed call, whether every public query of the object (nr_qbits, nr_cbits, is_stabilizer_circuit, verif_nr_ops, the three exports) is unchanged; the final number of operations. Then open_qasm / c_qasm / latex (class), "
             "execute_with on QuStateRepr::vector and ::stabilizer, reexecute after each (also after an error inside a run), and execute_with(vector) once more on the same object, with 0/1/2/3/5 shots: every traced operation is re-run by "
             "the Lean model from the implementation's own pre-state with its logged draws (step lines), the failing operation too. "
-            "Macro stream: 46 compiled circuit! invocations, one per builder method with a failing call in the middle (arguments count "
+            "Fixed stream: each of rx ry rz u1 u2 u3 (every parameter position), add_gate RX, CRX, CRY and a conditional RY with a NaN, +inf and -inf parameter, followed by measure / peek / reset / measure_x / measure_basis Y / peek_basis X / measure_all / peek_all and a further measure, on both representations. Macro stream: 46 compiled circuit! invocations, one per builder method with a failing call in the middle (arguments count "
             "their own evaluations), plus failing first/last calls and zero-width registers. (B): builders vs the reference reading "
             "(first out-of-range index), no PANIC anywhere, identical rejection by both representations, macro returns the first error; "
             "every failure carries the violated WellFormed conjunct as class tag. "
